@@ -1,31 +1,296 @@
 //! C03: WHERE keeps exactly the rows for which the predicate is true.
-//! `SELECT id FROM t WHERE <pred>` on generated tables in several physical layouts; the Lean
-//! specification (Kleene row-at-a-time evaluator) computes the expected ids.
+//!
+//! `SELECT id FROM t WHERE <pred>` on generated tables in several physical layouts (never compacted:
+//! compaction is C07's subject).  For every case the harness reads back the *column images* the real
+//! database built for every partition (codec ops, section types, dictionary) through the
+//! `LocustDB::verif_inner` hook and hands them, together with the logical cells, to the Lean driver:
+//! the implementation model (Query/Filter.lean) predicts the kept ids or the error kind from the images,
+//! the specification (Query/Sql.lean, Kleene logic) says which ids the property demands.
+//!
+//! model line:  where <rpn> <ncols> <col cells>… <nparts> <part>…
+//!   part  = <start>:<len>:<img>/<img>/…          (one image per logical column, `-` = column absent)
+//!   img   = <section types , separated>;<ops + separated | id>;<dictionary , separated hex | ->
+//!   ops   = N | A<bits>:<offset> | D<bits> | T<bits> | P<i> | L<bits> | Z<type> | U | H
+//! LIKE (differential only):  like <pattern hex> <str col cells>
+use std::sync::Arc;
+use std::time::Instant;
+use vharness::locustdb::verif::engine::EncodingType;
+use vharness::locustdb::verif::mem_store::{CodecOp, Column, DataSection, DataSource};
+use vharness::locustdb::LocustDB;
 use vharness::qcommon::*;
 use vharness::*;
+
+const NEVER_COMPACT: u64 = 1_000_000;
+
+fn et(t: &EncodingType) -> String { format!("{:?}", t).to_lowercase() }
+fn bits(t: &EncodingType) -> &'static str {
+    match t { EncodingType::U8 => "8", EncodingType::U16 => "16", EncodingType::U32 => "32", EncodingType::U64 => "64u", EncodingType::I64 => "64", _ => "0" }
+}
+
+fn dict_entries(col: &Column) -> Option<Vec<String>> {
+    let d = col.data();
+    if d.len() < 3 { return None; }
+    match (&d[1], &d[2]) {
+        (DataSection::U64(idx), DataSection::U8(bytes)) => Some(idx.iter().map(|ol| {
+            let off = (ol >> 24) as usize; let len = (ol & 0x00ff_ffff) as usize;
+            hexb(&bytes[off..off + len]) }).collect()),
+        _ => None,
+    }
+}
+
+fn image_tok(col: &Column) -> String {
+    let codec = col.codec();
+    let mut has_dict = false;
+    let ops: Vec<String> = codec.ops().iter().map(|op| match op {
+        CodecOp::Nullable => "N".to_string(),
+        CodecOp::Add(t, x) => format!("A{}:{}", bits(t), x),
+        CodecOp::Delta(t) => format!("D{}", bits(t)),
+        CodecOp::ToI64(t) => format!("T{}", bits(t)),
+        CodecOp::PushDataSection(i) => format!("P{}", i),
+        CodecOp::DictLookup(t) => { has_dict = true; format!("L{}", bits(t)) }
+        CodecOp::LZ4(t, _) | CodecOp::Pco(t, _, _) => format!("Z{}", et(t)),
+        CodecOp::UnpackStrings => "U".to_string(),
+        CodecOp::UnhexpackStrings(..) => "H".to_string(),
+        CodecOp::Unknown => "X".to_string(),
+    }).collect();
+    let secs: Vec<String> = codec.section_types().iter().map(et).collect();
+    let dict = if has_dict { dict_entries(col).map(|d| if d.is_empty() { "[]".to_string() } else { d.join(",") }).unwrap_or("?".into()) } else { "-".into() };
+    format!("{};{};{}", secs.join(","), if ops.is_empty() { "id".to_string() } else { ops.join("+") }, dict)
+}
+
+/// Coverage label of an image: the codec shape without constants.
+fn image_class(tok: &str) -> String {
+    if tok == "-" { return "absent".into(); }
+    let ops = tok.split(';').nth(1).unwrap_or("");
+    ops.split('+').map(|o| if let Some(r) = o.strip_prefix('A') { format!("A{}", r.split(':').next().unwrap_or("")) } else if o.starts_with('Z') { "Z".to_string() } else { o.to_string() }).collect::<Vec<_>>().join("+")
+}
+
+/// The physical images of table "t": one token per partition, in table order.
+fn images(db: &LocustDB, names: &[String]) -> (String, Vec<String>) {
+    let mut parts = db.verif_inner().snapshot("t", None).unwrap_or_default();
+    parts.sort_by_key(|p| p.range().start);
+    let mut classes = vec![];
+    let toks: Vec<String> = parts.iter().map(|p| {
+        let handles = p.clone_column_handles();
+        let imgs: Vec<String> = names.iter().map(|n| {
+            let col = handles.iter().find(|h| h.name() == n).and_then(|h| h.try_get().clone());
+            let tok = match col { Some(c) => image_tok(&c), None => "-".to_string() };
+            classes.push(image_class(&tok));
+            tok
+        }).collect();
+        format!("{}:{}:{}", p.range().start, p.len(), imgs.join("/"))
+    }).collect();
+    (format!("{} {}", toks.len(), if toks.is_empty() { String::new() } else { toks.join(" ") }).trim_end().to_string(), classes)
+}
+
+struct Live { db: Arc<LocustDB>, img: String, img_classes: Vec<String> }
+
+fn build(t: &LTable, r: &Realisation) -> Live {
+    let db = realise(t, r);
+    let (img, img_classes) = images(&db, &t.names);
+    Live { db, img, img_classes }
+}
+
+struct Ctx { cases: Cases, t0: Instant, budget_s: u64, rebuilds: usize }
+
+impl Ctx {
+    fn over(&self) -> bool { self.t0.elapsed().as_secs() >= self.budget_s }
+
+    /// Run one predicate; a panic / hang costs the database a worker thread, so rebuild it afterwards.
+    fn run(&mut self, live: &mut Live, t: &LTable, r: &Realisation, p: &Ex, class: &str) {
+        let q = format!("SELECT id FROM t WHERE {}", p.sql(&t.names));
+        let out = query_full(&live.db, &q, true, 10);
+        let model_line = format!("where {} {} {}", p.rpn(), t.tok(), live.img);
+        self.cases.push(&format!("{}|p{}", class, r.partitions().min(3)), &model_line, &ids_tok(&out),
+            &format!("{} | {} | {} | {} | {}", q, t.type_tag(), r.tag(), live.img_classes.join(","), out.detail()));
+        let bad = matches!(out, QOut::Panic(_) | QOut::Hang) || matches!(&out, QOut::Err(k) if k == "canceled");
+        if bad { *live = build(t, r); self.rebuilds += 1; }
+    }
+}
+
+fn no_compaction(mut r: Realisation) -> Realisation { r.combine_factor = NEVER_COMPACT; r }
+
+fn single(n: usize, flush: bool, rng: &mut Rng) -> Realisation {
+    Realisation { bounds: vec![0, n], flush: vec![flush], omit_null_cols: false, combine_factor: NEVER_COMPACT, mem_lz4: rng.chance(1, 2),
+        batch_size: *rng.pick(&[8usize, 64, 1024]), threads: 2, pref: rng.next() }
+}
+
+fn table_of(cols: Vec<(ColType, Vec<Cell>)>) -> LTable {
+    let n = cols[0].1.len();
+    let mut names = vec!["id".to_string()];
+    let mut types = vec![ColType::Id];
+    let mut cs = vec![(0..n as i64).map(Cell::Int).collect::<Vec<_>>()];
+    for (k, (t, c)) in cols.into_iter().enumerate() { names.push(format!("c{}", k + 1)); types.push(t); cs.push(c); }
+    LTable { n, names, types, cols: cs }
+}
+
+fn cmp(op: &'static str, l: Ex, r: Ex) -> Ex { Ex::Cmp(op, Box::new(l), Box::new(r)) }
+fn flip(op: &'static str) -> &'static str { match op { "<" => ">", "<=" => ">=", ">" => "<", ">=" => "<=", o => o } }
+
+/// Witnesses of DESIGN §8 #1, #2, #23 and of the defects found by this check: they head every run.
+fn corpus(cx: &mut Ctx, rng: &mut Rng) {
+    let s = ["b", "d", "b", "f", "d", "b", "f", "d"].iter().map(|x| Cell::Str(x.to_string())).collect::<Vec<_>>();
+    let n = vec![Cell::Int(1), Cell::Null, Cell::Int(30), Cell::Null, Cell::Null, Cell::Int(7), Cell::Null, Cell::Null];
+    let x = [3i64, -5, 100, 7, 8, 9, 10, 11].iter().map(|v| Cell::Int(*v)).collect::<Vec<_>>();
+    let t = table_of(vec![(ColType::Str("lowcard"), s), (ColType::Int("small"), n), (ColType::Int("u8off"), x)]);
+    for flush in [false, true] {
+        let r = single(8, flush, rng);
+        let mut live = build(&t, &r);
+        let sc = |c: &str| Ex::Lit(Cell::Str(c.to_string()));
+        for op in CMP_OPS {
+            for c in ["c", "a", "g", "d", ""] {
+                cx.run(&mut live, &t, &r, &cmp(op, Ex::Col(1), sc(c)), &format!("corpus:dict{}{}", op, if ["d"].contains(&c) { "member" } else { "absent" }));
+                cx.run(&mut live, &t, &r, &cmp(flip(op), sc(c), Ex::Col(1)), &format!("corpus:dict{}{}~", op, if ["d"].contains(&c) { "member" } else { "absent" }));
+            }
+        }
+        let lt10 = cmp("<", Ex::Col(2), Ex::Lit(Cell::Int(10)));
+        let id5 = cmp(">", Ex::Col(0), Ex::Lit(Cell::Int(5)));
+        cx.run(&mut live, &t, &r, &Ex::Or(Box::new(lt10.clone()), Box::new(id5.clone())), "corpus:or-null");
+        cx.run(&mut live, &t, &r, &Ex::Or(Box::new(id5.clone()), Box::new(lt10.clone())), "corpus:or-null");
+        cx.run(&mut live, &t, &r, &Ex::And(Box::new(lt10.clone()), Box::new(id5.clone())), "corpus:and-null");
+        cx.run(&mut live, &t, &r, &Ex::Not(Box::new(lt10.clone())), "corpus:not-nullable");
+        cx.run(&mut live, &t, &r, &Ex::Not(Box::new(id5.clone())), "corpus:not");
+        for op in CMP_OPS {
+            for c in [i64::MAX, i64::MAX - 1, i64::MAX - 5, i64::MAX - 6, i64::MIN, i64::MIN + 1, -5, -6, 250, 251] {
+                cx.run(&mut live, &t, &r, &cmp(op, Ex::Col(3), Ex::Lit(Cell::Int(c))), &format!("corpus:encode-int{}", op));
+            }
+        }
+        // a column that does not exist (in this partition): every comparison with it is not true
+        let t2 = { let mut t2 = t.clone(); t2.names.push("zz".into()); t2.types.push(ColType::Int("small")); t2.cols.push(vec![Cell::Null; 8]); t2 };
+        let mut r2 = r.clone(); r2.omit_null_cols = true; r2.pref = 2;
+        let mut live2 = build(&t2, &r2);
+        for op in CMP_OPS {
+            let a = cmp(op, Ex::Col(4), Ex::Lit(Cell::Int(3)));
+            cx.run(&mut live2, &t2, &r2, &a, &format!("corpus:absent{}", op));
+            cx.run(&mut live2, &t2, &r2, &Ex::And(Box::new(a.clone()), Box::new(id5.clone())), &format!("corpus:absent{}-and", op));
+            cx.run(&mut live2, &t2, &r2, &Ex::Or(Box::new(id5.clone()), Box::new(a.clone())), &format!("corpus:absent{}-or", op));
+        }
+        cx.run(&mut live2, &t2, &r2, &Ex::IsNull(Box::new(Ex::Col(4))), "corpus:absent-isnull");
+        cx.run(&mut live2, &t2, &r2, &Ex::NotNull(Box::new(Ex::Col(4))), "corpus:absent-notnull");
+    }
+}
+
+/// Constants positioned relative to an integer column: inside, at the edges, outside the range, around the
+/// codec offset's representability limits (c - offset not an i64).
+fn int_consts(vals: &[i64]) -> Vec<(i64, &'static str)> {
+    let lo = vals.iter().min().copied().unwrap_or(0);
+    let hi = vals.iter().max().copied().unwrap_or(0);
+    let mut v = vec![(lo, "min"), (hi, "max"), (lo.saturating_sub(1), "min-1"), (hi.saturating_add(1).min(i64::MAX - 1), "max+1"),
+        (lo / 2 + hi / 2, "mid"), (vals.get(vals.len() / 2).copied().unwrap_or(0), "member"),
+        (lo.saturating_add(255), "lo+255"), (lo.saturating_add(256), "lo+256"), (lo.saturating_add(65536), "lo+65536"),
+        (0, "zero"), (-1, "typebound"), (256, "typebound"), (4294967296, "typebound"),
+        (i64::MAX, "i64max"), (i64::MAX - 1, "extreme"), (i64::MIN, "i64min"), (i64::MIN + 1, "extreme"),
+        // first / last constant whose encoding `c - lo` leaves i64
+        (i64::MAX.saturating_add(lo.min(0)), "enc-edge"), (i64::MAX.saturating_add(lo.min(0)).saturating_add(1), "enc-edge+1"),
+        (i64::MIN.saturating_add(lo.max(0)), "enc-edge"), (i64::MIN.saturating_add(lo.max(0)).saturating_sub(1), "enc-edge-1")];
+    v.dedup();
+    v
+}
+
+fn directed_ints(cx: &mut Ctx, rng: &mut Rng, thorough: bool) {
+    for class in ["u8", "u8off", "u16", "u16off", "u32", "u32off", "i64", "mono", "edges", "const", "small", "negoff"] {
+        for nullable in [false, true] {
+            if cx.over() { return; }
+            let n = *rng.pick(&[9usize, 17, 33]);
+            let ints: Vec<i64> = if class == "negoff" { let o = -rng.range(1, 1 << 40); (0..n).map(|_| o + rng.range(0, 200)).collect() } else { gen_ints(rng, n, class) };
+            let cells: Vec<Cell> = ints.iter().map(|i| Cell::Int(*i)).collect();
+            let cells = if nullable { let m: Vec<bool> = (0..n).map(|i| i % 4 == 3 || rng.chance(1, 8)).collect(); apply_nulls(cells, &m) } else { cells };
+            let t = table_of(vec![(ColType::Int(if class == "negoff" { "u8off" } else { Box::leak(class.to_string().into_boxed_str()) }), cells)]);
+            let r = single(n, rng.chance(1, 2), rng);
+            let mut live = build(&t, &r);
+            let present: Vec<i64> = t.cols[1].iter().filter_map(|c| if let Cell::Int(i) = c { Some(*i) } else { None }).collect();
+            let mut atoms = vec![];
+            for (c, pos) in int_consts(&present) { for op in CMP_OPS { atoms.push((c, pos, *op)); } }
+            let take = if thorough { atoms.len() } else { 36 };
+            for k in 0..take {
+                let (c, pos, op) = if thorough { atoms[k] } else { *rng.pick(&atoms) };
+                let swap = rng.chance(1, 4);
+                let e = if swap { cmp(flip(op), Ex::Lit(Cell::Int(c)), Ex::Col(1)) } else { cmp(op, Ex::Col(1), Ex::Lit(Cell::Int(c))) };
+                cx.run(&mut live, &t, &r, &e, &format!("i:{}{}{}{}{}", class, if nullable { "?" } else { "" }, op, pos, if swap { "~" } else { "" }));
+            }
+            for e in [Ex::IsNull(Box::new(Ex::Col(1))), Ex::NotNull(Box::new(Ex::Col(1))), cmp("<=", Ex::Col(1), Ex::Col(0)), cmp("<>", Ex::Col(0), Ex::Col(1))] {
+                let cl = format!("i:{}{}:{}", class, if nullable { "?" } else { "" }, e.shape());
+                cx.run(&mut live, &t, &r, &e, &cl);
+            }
+        }
+    }
+}
+
+fn directed_strs(cx: &mut Ctx, rng: &mut Rng, thorough: bool) {
+    for class in ["lowcard", "pool", "highcard"] {
+        for nullable in [false, true] {
+            if cx.over() { return; }
+            let n = *rng.pick(&[9usize, 17, 33]);
+            let strs = gen_strs(rng, n, class);
+            let cells: Vec<Cell> = strs.iter().map(|s| Cell::Str(s.clone())).collect();
+            let cells = if nullable { let m: Vec<bool> = (0..n).map(|i| i % 5 == 2).collect(); apply_nulls(cells, &m) } else { cells };
+            let t = table_of(vec![(ColType::Str(Box::leak(class.to_string().into_boxed_str())), cells)]);
+            let r = single(n, rng.chance(1, 2), rng);
+            let mut live = build(&t, &r);
+            let mut sorted: Vec<String> = strs.clone(); sorted.sort(); sorted.dedup();
+            let mut consts: Vec<(String, &'static str)> = vec![(String::new(), "empty"), ("\u{10FFFF}".into(), "after-last"), (sorted[0].clone(), "first"), (sorted[sorted.len() - 1].clone(), "last")];
+            for s in sorted.iter().take(4) { consts.push((format!("{}0", s), "between")); consts.push((s.clone(), "member")); }
+            if let Some(f) = sorted.iter().find(|s| !s.is_empty()) { let mut b = f.clone(); b.pop(); consts.push((b, "before")); }
+            let mut atoms = vec![];
+            for (c, pos) in &consts { for op in CMP_OPS { atoms.push((c.clone(), *pos, *op)); } }
+            let take = if thorough { atoms.len() } else { 30 };
+            for k in 0..take {
+                let (c, pos, op) = if thorough { atoms[k].clone() } else { rng.pick(&atoms).clone() };
+                let swap = rng.chance(1, 4);
+                let e = if swap { cmp(flip(op), Ex::Lit(Cell::Str(c)), Ex::Col(1)) } else { cmp(op, Ex::Col(1), Ex::Lit(Cell::Str(c))) };
+                cx.run(&mut live, &t, &r, &e, &format!("s:{}{}{}{}{}", class, if nullable { "?" } else { "" }, op, pos, if swap { "~" } else { "" }));
+            }
+            for e in [Ex::IsNull(Box::new(Ex::Col(1))), Ex::NotNull(Box::new(Ex::Col(1))), cmp("<=", Ex::Col(1), Ex::Col(1))] {
+                let cl = format!("s:{}{}:{}", class, if nullable { "?" } else { "" }, e.shape());
+                cx.run(&mut live, &t, &r, &e, &cl);
+            }
+        }
+    }
+}
+
+/// LIKE against the reference %/_ matcher of the driver (differential only; the regex rewriting is not modelled).
+fn likes(cx: &mut Ctx, rng: &mut Rng, thorough: bool) {
+    let pats = ["%", "a%", "%a", "%a%", "a_", "_", "__", "ab%", "%b%c", "a%c", "", "abc", "%%", "a%%", "_%", "%_", "b_%", "%0", "d%f", "x y", "%é%"];
+    for class in ["pool", "lowcard", "highcard"] {
+        if cx.over() { return; }
+        let n = 17;
+        let strs = gen_strs(rng, n, class);
+        let t = table_of(vec![(ColType::Str("like"), strs.iter().map(|s| Cell::Str(s.clone())).collect())]);
+        let r = single(n, rng.chance(1, 2), rng);
+        let live = build(&t, &r);
+        for p in pats.iter().take(if thorough { pats.len() } else { 12 }) {
+            let q = format!("SELECT id FROM t WHERE c1 LIKE '{}'", p);
+            let out = query_full(&live.db, &q, true, 10);
+            cx.cases.push(&format!("like:{}", class), &format!("like {} {}", hexs(p), cells_tok(&t.cols[1])), &ids_tok(&out), &q);
+        }
+    }
+}
 
 fn main() {
     let args = parse_args();
     quiet_panics();
     let mut rng = Rng::new(args.seed);
-    let mut cases = Cases::create(&args.out);
-    let (tables, per_table) = if args.thorough() { (500, 40) } else { (70, 25) };
+    let thorough = args.thorough();
+    let mut cx = Ctx { cases: Cases::create(&args.out), t0: Instant::now(), budget_s: if thorough { 1200 } else { 75 }, rebuilds: 0 };
+    corpus(&mut cx, &mut rng);
+    directed_ints(&mut cx, &mut rng, thorough);
+    directed_strs(&mut cx, &mut rng, thorough);
+    likes(&mut cx, &mut rng, thorough);
+    let (tables, per_table) = if thorough { (400, 40) } else { (60, 22) };
     for _ in 0..tables {
+        if cx.over() { break; }
         let n = *rng.pick(&[1usize, 2, 5, 8, 9, 16, 17, 33, 70]);
         let extra = 1 + rng.below(3) as usize;
         let t = gen_table(&mut rng, n, extra, true, true);
-        let r = gen_realisation(&mut rng, n, true);
-        let db = realise(&t, &r);
-        let ttok = t.tok();
+        let r = no_compaction(gen_realisation(&mut rng, n, false));
+        let mut live = build(&t, &r);
         for _ in 0..per_table {
             let depth = rng.below(4) as u32;
             let (p, class) = gen_pred(&mut rng, &t, depth, true);
-            let q = format!("SELECT id FROM t WHERE {}", p.sql(&t.names));
-            let out = query(&db, &q);
-            let model_line = format!("where {} {}", p.rpn(), ttok);
-            let shape = if class.len() > 60 { format!("tree:{}", p.shape().chars().filter(|c| "&|!".contains(*c)).collect::<String>()) } else { class };
-            cases.push(&format!("{}|p{}", shape, r.partitions().min(3)), &model_line, &ids_tok(&out), &format!("{} | {} | {} | {}", q, t.type_tag(), r.tag(), out.detail()));
+            let shape = if class.len() > 48 || class.contains('(') { format!("tree:{}", p.shape().chars().filter(|c| "&|!".contains(*c)).collect::<String>()) } else { class };
+            cx.run(&mut live, &t, &r, &p, &shape);
         }
     }
-    cases.finish();
+    eprintln!("c03: {} cases, {} rebuilds, {:.1}s", cx.cases.n, cx.rebuilds, cx.t0.elapsed().as_secs_f64());
+    cx.cases.finish();
 }
